@@ -116,6 +116,7 @@ type Case struct {
 	AutoReconnect bool      `json:"auto_reconnect"`
 	SessionLost   bool      `json:"session_lost"` // the server forgets the session when the connection is lost
 	TransferOK    bool      `json:"transfer_ok"`  // TransferSubscriptions succeeds for subscriptions the server has
+	ReaderCalls   bool      `json:"reader_calls"` // the application's notification reader (unbuffered channel) calls Client.SubscriptionIDs for every notification
 	Actions       []Action  `json:"actions"`
 	Observed      *Observed `json:"observed,omitempty"`
 }
@@ -139,6 +140,7 @@ func genCase(t *rapid.T) Case {
 		AutoReconnect: rapid.IntRange(0, 3).Draw(t, "autoReconnect") > 0,
 		SessionLost:   rapid.Bool().Draw(t, "sessionLost"),
 		TransferOK:    rapid.Bool().Draw(t, "transferOK"),
+		ReaderCalls:   rapid.Bool().Draw(t, "readerCalls"),
 	}
 	// rapid's integer generators favour small values; the modulo spreads the
 	// script lengths and the operations evenly (and still shrinks towards 0)
@@ -279,7 +281,9 @@ func (w *world) answer(p *pubReq, kind string, status ua.StatusCode) {
 		if kind == "data" {
 			w.seq[id]++
 			resp = script.DataChange(p.req, id, w.seq[id], map[uint32]*ua.DataValue{1: {EncodingMask: ua.DataValueValue, Value: ua.MustVariant(int32(w.seq[id]))}})
-			w.logf("server: conn#%d publish %d <- data sub %d seq %d", p.conn.ID, p.id, id, w.seq[id])
+			if !w.auto {
+				w.logf("server: conn#%d publish %d <- data sub %d seq %d", p.conn.ID, p.id, id, w.seq[id])
+			}
 		} else {
 			resp = script.KeepAlive(p.req, id, w.seq[id]+1)
 			if !w.auto {
@@ -304,7 +308,7 @@ func (w *world) handle(conn *script.Conn, req ua.Request, reqID uint32) bool {
 		if w.auto {
 			time.AfterFunc(20*time.Millisecond, func() {
 				w.mu.Lock()
-				w.answer(p, "keepalive", 0)
+				w.answer(p, "data", 0)
 				w.mu.Unlock()
 			})
 		} else {
@@ -810,6 +814,9 @@ func execute(c Case) (res result, err error) {
 	ctx, cancel := context.WithCancel(context.Background())
 	defer cancel()
 	r := &run{c: c, disturbed: -1, w: w, ctx: ctx, cls: map[string]bool{}, nch: make(chan *opcua.PublishNotificationData, 256)}
+	if c.ReaderCalls {
+		r.nch = make(chan *opcua.PublishNotificationData)
+	}
 	cl, e := opcua.NewClient(srv.URL, opcua.SecurityMode(ua.MessageSecurityModeNone), opcua.RequestTimeout(requestTimeout),
 		opcua.AutoReconnect(c.AutoReconnect), opcua.ReconnectInterval(50*time.Millisecond), opcua.StateChangedFunc(r.onState))
 	if e != nil {
@@ -840,9 +847,13 @@ func execute(c Case) (res result, err error) {
 		r.stMu.Unlock()
 	}
 	go func() {
+		// the application: reads every notification at once
 		for {
 			select {
 			case <-r.nch:
+				if c.ReaderCalls {
+					_ = r.cl.SubscriptionIDs()
+				}
 			case <-ctx.Done():
 				return
 			}
@@ -925,7 +936,7 @@ func execute(c Case) (res result, err error) {
 	monitorStopped := func() bool { return !c.AutoReconnect && cl.State() == opcua.Closed }
 	isAPI := func(g gor) bool { return g.has("c27.apiCallGoroutine") }
 	isLoop := func(g gor) bool {
-		return g.has("opcua.(*Client).monitorSubscriptions") || g.has("opcua.(*Client).monitor ") || g.has("c27.apiCallGoroutine")
+		return g.has("opcua.(*Client).monitorSubscriptions") || g.has("opcua.(*Client).monitor ") || g.has("c27.apiCallGoroutine") || g.has("opcua.(*Client).SubscriptionIDs")
 	}
 	atSignals := func(sigs []string) bool {
 		for _, s := range sigs {
@@ -952,6 +963,9 @@ func execute(c Case) (res result, err error) {
 		}
 		res.nontriv = r.nt
 		r.cls[fmt.Sprintf("AutoReconnect=%v", c.AutoReconnect)] = true
+		if c.ReaderCalls {
+			r.cls["notification-reader-calls-SubscriptionIDs(unbuffered-channel)"] = true
+		}
 		r.cls[fmt.Sprintf("actions=%d-%d", len(c.Actions)/4*4, len(c.Actions)/4*4+3)] = true
 		if w.faults > 0 {
 			r.cls["some-publish-failed"] = true
